@@ -94,7 +94,7 @@ func init() {
 		ID: "C16", Title: "Number/Dimension/URL/data-URI/media-type helpers match their definitions",
 		Sel: []Sel{
 			{Pattern: "parse.Number", Levels: "SF"}, {Pattern: "parse.Dimension", Levels: "SF"},
-			{Pattern: "parse.Mediatype", Levels: "S"}, {Pattern: "parse.DataURI", Levels: "S"}, {Pattern: "parse.QuoteEntity", Levels: "S"},
+			{Pattern: "parse.Mediatype", Levels: "S"}, {Pattern: "parse.DataURI", Levels: "SF"}, {Pattern: "parse.QuoteEntity", Levels: "S"},
 			{Pattern: "parse.EncodeURL", Levels: "S"}, {Pattern: "parse.DecodeURL", Levels: "S"}, {Pattern: "parse.AppendEscape", Levels: "S"},
 			{Pattern: "parse.EqualFold", Levels: "SF"}, {Pattern: "parse.ToLower", Levels: "SF"}, {Pattern: "parse.Copy", Levels: "SF"},
 			{Pattern: "parse.TrimWhitespace", Levels: "SF"}, {Pattern: "parse.IsAllWhitespace", Levels: "SF"},
@@ -219,7 +219,7 @@ func init() {
 	registerProp(&PropSpec{
 		ID: "C15", Title: "Reported line, column and context locate the offending byte",
 		Sel: []Sel{
-			{Pattern: "parse.Position", Levels: "SF"}, {Pattern: "parse.positionContext", Levels: "S"}, {Pattern: "parse.NewError", Levels: "SF"}, {Pattern: "parse.NewErrorLexer", Levels: "F"},
+			{Pattern: "parse.Position", Levels: "SF"}, {Pattern: "parse.positionContext", Levels: "SF"}, {Pattern: "parse.NewError", Levels: "SF"}, {Pattern: "parse.NewErrorLexer", Levels: "F"},
 			{Pattern: "parse.Error.*", Levels: "S"}, {Pattern: "parse.Input.PeekRune", Levels: "SF"}, {Pattern: "parse.Input.Offset", Levels: "S"},
 			{Pattern: "css.Parser.Err", Levels: "SF"}, {Pattern: "buffer.NewReader", Levels: "SF"},
 			{Pattern: "json.Parser.Next", Levels: "F", OnlyTags: []string{"C15"}},
